@@ -3,6 +3,9 @@
 (*                                                                             *)
 (* An expression is a tree e:                                                   *)
 (*   [op |-> "word", f, t]            f = "" : no field prefix; t letter codes   *)
+(*   [op |-> "stop", f]               a word the field's analyzer removes ("the"): *)
+(*                                    it is gone from the query, and so is a group  *)
+(*                                    nothing else is left of                       *)
 (*   [op |-> "phrase", f, words, slop]  slop = 0: none written (default 1)      *)
 (*   [op |-> "multi", f, parts]       one typed word that the field's analyzer    *)
 (*                                    breaks into several tokens (written with    *)
@@ -37,7 +40,7 @@ Num(n) == IF n < 0 THEN "-" \o ToString(0 - n) ELSE ToString(n)
 
 \* binding strength of the expression's outermost construct
 Level(e) ==
-  CASE e.op \in {"word", "multi", "phrase", "prefix", "wild", "range", "nrange", "boost", "fgroup", "cmp"} -> 4
+  CASE e.op \in {"word", "stop", "multi", "phrase", "prefix", "wild", "range", "nrange", "boost", "fgroup", "cmp"} -> 4
     [] e.op = "not" -> 3
     [] e.op = "and" -> 2
     [] e.op = "or" -> 1
@@ -52,6 +55,7 @@ Join(kids, sep, lv) == IF Len(kids) = 1 THEN Sub(kids[1], lv)
                        ELSE Sub(Head(kids), lv) \o sep \o Join(Tail(kids), sep, lv)
 Render(e) ==
   CASE e.op = "word" -> FieldPrefix(e.f) \o Word(e.t)
+    [] e.op = "stop" -> FieldPrefix(e.f) \o "the"
     [] e.op = "multi" -> FieldPrefix(e.f) \o Join([i \in DOMAIN e.parts |-> [op |-> "word", f |-> "", t |-> e.parts[i]]], "-", 4)
     [] e.op = "prefix" -> FieldPrefix(e.f) \o Word(e.t) \o "*"
     [] e.op = "wild" -> FieldPrefix(e.f) \o Word(e.t)
@@ -87,6 +91,12 @@ Spread(cfg, f, mk(_)) ==
   ELSE IF Len(cfg.fields) = 1 THEN mk(cfg.fields[1])
   ELSE [op |-> cfg.multi, kids |-> [i \in DOMAIN cfg.fields |-> mk(cfg.fields[i])], b4 |-> 4]
 
+\* nothing is left of a removed word, nor of a group of removed words
+RECURSIVE Gone(_)
+Gone(e) == \/ e.op = "stop"
+           \/ e.op = "group" /\ \A i \in DOMAIN e.kids : Gone(e.kids[i])
+           \/ e.op = "fgroup" /\ Gone(e.e)
+
 RECURSIVE Meaning(_, _, _)
 Meaning(e, cfg, f) ==
   LET fld == IF "f" \in DOMAIN e /\ e.f # "" THEN e.f ELSE f
@@ -115,7 +125,10 @@ Meaning(e, cfg, f) ==
        [] e.op = "not" -> [op |-> "not", q |-> Meaning(e.e, cfg, f)]
        [] e.op = "and" -> kids("and")
        [] e.op = "or" -> kids("or")
-       [] e.op = "group" -> kids(cfg.group)
+       [] e.op = "group" -> LET live == SelectSeq(e.kids, LAMBDA x : ~Gone(x))
+                            IN IF live = <<>> THEN [op |-> "null"]
+                               ELSE [op |-> cfg.group, kids |-> [i \in DOMAIN live |-> Meaning(live[i], cfg, f)], b4 |-> 4]
+       [] e.op = "stop" -> [op |-> "null"]
        [] e.op \in {"andnot", "andmaybe", "require"} ->
             [op |-> e.op, a |-> Meaning(e.a, cfg, f), b |-> Meaning(e.b, cfg, f)]
        [] e.op = "pm" ->
